@@ -96,13 +96,14 @@ def _object_value_node_from_value(
         raise ValueError('Value of type "%s" must be a dict' % input_type)
 
     field_nodes = []
+    python_names = {f.python_name for f in input_type.fields}
     for field_def in input_type.fields:
-        # Coerced input objects are keyed by the configured Python names.
-        key = (
-            field_def.python_name
-            if field_def.python_name in value
-            else field_def.name
-        )
+        # Coerced input objects are keyed by the configured Python names. The
+        # GraphQL name is only used when the value has no entry under the
+        # Python name and no other field owns that key.
+        key = field_def.python_name
+        if key not in value and field_def.name not in python_names:
+            key = field_def.name
         if key in value:
             field_value = ast_node_from_value(value[key], field_def.type)
             field_nodes.append(
